@@ -26,23 +26,24 @@ type drvDatagram struct {
 }
 
 type drvRequest struct {
-	Op           string            `json:"op"`
-	Proto        string            `json:"proto,omitempty"`
-	Workers      int               `json:"workers,omitempty"`
-	UDPSize      int               `json:"udpsize,omitempty"`
-	OtherUDPSize int               `json:"other_udpsize,omitempty"`
-	Churn        int               `json:"churn,omitempty"`
-	LazyDrain    bool              `json:"lazy_drain,omitempty"`
-	Verbose      bool              `json:"verbose,omitempty"`
-	Filter       []uint32          `json:"filter,omitempty"`
-	ResetCache   bool              `json:"reset_cache,omitempty"`
-	Mirror       bool              `json:"mirror,omitempty"`
-	MirrorDst    string            `json:"mirror_dst,omitempty"`
-	MirrorPort   int               `json:"mirror_port,omitempty"`
-	Phases       [][]drvDatagram   `json:"phases,omitempty"`
-	Args         []string          `json:"args,omitempty"`
-	Env          map[string]string `json:"env,omitempty"`
-	Config       *string           `json:"config,omitempty"`
+	Op            string            `json:"op"`
+	Proto         string            `json:"proto,omitempty"`
+	Workers       int               `json:"workers,omitempty"`
+	UDPSize       int               `json:"udpsize,omitempty"`
+	OtherUDPSize  int               `json:"other_udpsize,omitempty"`
+	Churn         int               `json:"churn,omitempty"`
+	LazyDrain     bool              `json:"lazy_drain,omitempty"`
+	Verbose       bool              `json:"verbose,omitempty"`
+	Filter        []uint32          `json:"filter,omitempty"`
+	ResetCache    bool              `json:"reset_cache,omitempty"`
+	Mirror        bool              `json:"mirror,omitempty"`
+	MirrorDst     string            `json:"mirror_dst,omitempty"`
+	MirrorPort    int               `json:"mirror_port,omitempty"`
+	MirrorWorkers int               `json:"mirror_workers,omitempty"`
+	Phases        [][]drvDatagram   `json:"phases,omitempty"`
+	Args          []string          `json:"args,omitempty"`
+	Env           map[string]string `json:"env,omitempty"`
+	Config        *string           `json:"config,omitempty"`
 }
 
 type drvPhase struct {
